@@ -734,3 +734,52 @@ def sg8(P, C):
          "search starts from %s with `%s`" % (val, op) if ok else
          "the search starts from %s and admits a candidate only if it is %s that: a ratio of exactly 1 is never selected, the solver finds no blocking "
          "coefficient and calls exit(1)" % (val, "strictly below" if op == "<" else "at most"))
+
+
+def sg9(P, C):
+    """SG-9: a block solver that runs out of iterations does not pass its iterate off as the optimum."""
+    C.rule("SG-9", "each block-pivoting solver bounds its outer loop by an iteration cap; when the loop is left because the cap is exhausted — "
+           "not because the convergence test held — the iterate is not the constrained optimum (it may have a negative component, or a zero "
+           "component with a negative gradient). After the loop a test of the iteration counter that is not merely diagnostic (not under "
+           "`if (verbose)`) has to separate the two exits and report the failure (NULL / error return, released result) or switch to a "
+           "method that terminates; none of the three solvers has one", floor=3)
+    n = 0
+    for name in ("nnls_normal_block", "nnls_normal_block_updown", "nnls_normal_block3"):
+        fs_ = [g for g in P.fns(name) if g.unit.startswith("fitter/")]
+        if not fs_:
+            continue
+        f = fs_[0]
+        # the outer capped loop: outermost loop whose condition tests a counter against a bound (or counts it down), with a break inside
+        loops = [i for i in f.walk() if f.k(i) in ("ForStmt", "WhileStmt") and not any(f.k(a) in ("ForStmt", "WhileStmt", "DoStmt") for a in f.ancestors(i))]
+        outer = None
+        cvar = None
+        for L in loops:
+            c = f.nodes[L].get("cond", -1)
+            if c is None or c < 0:
+                continue
+            brk = any(f.k(x) == "BreakStmt" and next((a for a in f.ancestors(x) if f.k(a) in ("ForStmt", "WhileStmt", "DoStmt", "SwitchStmt")), None) == L
+                      for x in f.walk(f.nodes[L]["body"]))
+            names = [f.nodes[y]["decl"] for y in f.walk(c) if f.k(y) == "DeclRefExpr" and f.nodes[y]["decl"].get("kind") == "Var" and "iter" in f.nodes[y]["decl"].get("name", "")]
+            if brk and names:
+                outer, cvar = L, names[0]["id"]
+        if outer is None:
+            C.ob("SG-9", name, "cap-exit-reported", False, f.where(), "the capped outer loop was not identified")
+            n += 1
+            continue
+        tests = []
+        for x in f.walk():
+            if f.k(x) != "IfStmt" or f.seq(x) < f.seq(outer) or outer in set(f.ancestors(x)):
+                continue
+            if not any(f.k(y) == "DeclRefExpr" and f.nodes[y]["decl"].get("id") == cvar for y in f.walk(f.nodes[x]["cond"])):
+                continue
+            diagnostic = any(f.k(a) == "IfStmt" and "verbose" in f.render(f.nodes[a]["cond"]) for a in f.ancestors(x))
+            acts = any(f.k(y) == "ReturnStmt" or (f.nodes[y].get("callee") or {}).get("name", "").startswith("cholmod_l_free_dense") for y in f.walk(x))
+            tests.append((x, diagnostic, acts))
+        ok = any((not d) and a for (_x, d, a) in tests)
+        n += 1
+        C.ob("SG-9", name, "cap-exit-reported", ok, f.loc(outer),
+             "running out of iterations is reported to the caller" if ok else
+             "the outer loop is left either by its convergence break or when the cap is exhausted, and the iterate is returned alike in both cases "
+             "(%s)" % ("the only test of the counter after the loop is diagnostic, under `if (verbose)`" if tests else "the counter is not tested after the loop"))
+    if n < 3:
+        raise core.AnalysisBroken("SG-9: expected the three block solvers, found %d" % n)
